@@ -22,6 +22,9 @@ V_ENSURES((!((__CPROVER_return_value < 0 || (size_t)__CPROVER_return_value < len
 int write_data(zckCtx *zck, int fd, const char *data, size_t length)
 V_REQUIRES(__CPROVER_rw_ok(zck, sizeof(*zck)))
 V_REQUIRES(length == 0 || data == NULL || __CPROVER_r_ok(data, length))
+/* call-site guards (spec/ghost.h), checked only in units that switch them on: the REQUEST lies inside the window / is all zero */
+V_REQUIRES(!g_wr_guard || (fd == g_win_fd && (length == 0 || (g_fpos[G_IX(fd)] >= g_win_lo && g_fpos[G_IX(fd)] <= g_win_hi && length <= g_win_hi - g_fpos[G_IX(fd)]))))
+V_REQUIRES(!g_wr_zero || length == 0 || data == NULL || !(g_k2 < length) || data[g_k2] == 0)
 V_ASSIGNS(zck->error_state, g_fpos, g_wr_bytes, g_io_failed, g_win_bad)
 V_ENSURES(__CPROVER_return_value == 1 || __CPROVER_return_value == 0 || __CPROVER_return_value == -1) /*@C12.write_data.ret*/
 V_ENSURES(__CPROVER_return_value != 1 || (g_wr_bytes[G_IX(fd)] == V_OLD(g_wr_bytes[G_IX(fd)]) + length && g_fpos[G_IX(fd)] == V_OLD(g_fpos[G_IX(fd)]) + (g_off_t)length)) /*@C12.write_data.success_means_all_bytes_accepted*/
